@@ -5,11 +5,46 @@ Objects derived from a Scores object are Scores objects like any other: swap(), 
 import numpy as np
 
 
+def group_twin(s):
+    """
+    A GroupScores object (a subclass: every Scores query applies) holding the same scores, built from *unsorted*
+    arrays of the same dtype, with group labels whose alphabetical order is opposite to the order of the scores.
+    """
+    from score_analysis import GroupScores
+
+    pos, neg = np.asarray(s.pos)[::-1].copy(), np.asarray(s.neg)[::-1].copy()
+    # after the reversal the first half holds the larger scores: it gets the alphabetically *first* label
+    pg = np.array(["a" if i < (len(pos) + 1) // 2 else "zz" for i in range(len(pos))], dtype=object)
+    ng = np.array(["a" if i < (len(neg) + 1) // 2 else "zz" for i in range(len(neg))], dtype=object)
+    # (GroupScores does not support easy samples: the twin holds the scored samples only)
+    return GroupScores(pos=pos, neg=neg, pos_groups=pg, neg_groups=ng, score_class=s.score_class, equal_class=s.equal_class)
+
+
 def derived_objects(s, seed=0, with_swap=True):
     """[(how, object)] - the global RNG state is restored afterwards."""
     from score_analysis import BootstrapConfig
 
     out = []
+    try:
+        g = group_twin(s)
+        out.append(("GroupScores twin (unsorted input)", g))
+    except Exception:  # noqa
+        g = None
+    if g is not None and len(s.pos) and len(s.neg):
+        st = np.random.get_state()
+        try:
+            for k, cfg in enumerate((
+                BootstrapConfig(sampling_method="single_pass", stratified_sampling="by_group"),
+                BootstrapConfig(sampling_method="replacement", stratified_sampling="by_group"),
+            )):
+                np.random.seed(1000 * seed + 31 * k + len(s.neg))
+                try:
+                    out.append((f"GroupScores twin.bootstrap_sample({cfg.sampling_method}, stratified={cfg.stratified_sampling})",
+                                g.bootstrap_sample(cfg)))
+                except Exception:  # noqa
+                    pass
+        finally:
+            np.random.set_state(st)
     if with_swap:
         try:
             out.append(("swap()", s.swap()))
